@@ -273,6 +273,12 @@ theorem invG_unlockInst {s s' : St} {t : Nat} (hi : InvG s) (h : step? s (.unloc
   simp only [step?] at h
   obtain ⟨a1,a2,a3,a4,a5,a6,a7,a8,a9,a10,a11,a12,a13,a14,a15,a16,a17,a18⟩ := hi
   split at h
+  · next i req hpc =>
+    simp at h; subst h
+    have hact : i = s.active := a2 t i (by simp [hpc, instOf])
+    have hh : s.holder i = some (.s t) := a6 t i (by simp [hpc, holds])
+    subst hact
+    cases req <;> inv_close
   · next i req idx cnt hpc =>
     split at h
     · simp at h; subst h
